@@ -34,6 +34,7 @@ struct %(IT)s { struct %(VEC)s *v; unsigned long idx; };
 #define std_make_shared__bool_rref vf_make_shared
 #define %(VEC)s__ctor__std_vector_size_type_allocator_type_ref vf_vec_ctor_n
 #define %(VEC)s__at__1 vf_vec_at
+#define %(VEC)s__op_index__1 vf_vec_index
 #define %(VEC)s__begin__0 vf_vec_begin
 #define %(VEC)s__end__0 vf_vec_end
 #define %(VEC)s__dtor vf_vec_dtor
@@ -107,6 +108,11 @@ struct %(SP)s *vf_vec_elem(struct %(VEC)s *v, unsigned long i)
 struct %(SP)s *vf_vec_at(struct %(VEC)s *v, unsigned long i)
 {
   if (i >= v->size) { vf_exc = 1; return &v->other; }     /* std::out_of_range */
+  return vf_vec_elem(v, i);
+}
+struct %(SP)s *vf_vec_index(struct %(VEC)s *v, unsigned long i)
+{
+  __CPROVER_assert(i < v->size, "[C19] vector subscript out of range (undefined behaviour instead of the required exception)");
   return vf_vec_elem(v, i);
 }
 void vf_vec_begin(struct %(IT)s *it, struct %(VEC)s *v) { it->v = v; it->idx = 0; }
